@@ -144,7 +144,7 @@ class SymProvider:
     def _snap(self):
         return list(CTX.path.pc), CTX.cons, CTX.rules
 
-    def check_eq(self, name, lhs, rhs, tol=None, deriv=False):
+    def check_eq(self, name, lhs, rhs, tol=None, deriv=False, exact=False):
         name = self._uniq(name)
         self.n_checks += 1
         la = numpy.array(lhs, dtype=object)
